@@ -134,6 +134,14 @@ def concretise(a):
         return -n if a["neg"] else n
     if t == "dec":
         return decimal.Decimal((1 if a["neg"] else 0, tuple(a["d"]), a["exp"]))
+    if t == "decspecial":
+        return decimal.Decimal(uncps(a["s"]))
+    if t == "float":
+        return float(uncps(a["s"]))
+    if t == "naivedt":
+        return datetime.datetime(2020, 1, 2, 3, 4, 5)
+    if t == "naivetime":
+        return datetime.time(3, 4, 5)
     if t in ("dtv", "timev"):
         if a["hasname"]:
             tz = datetime.timezone(datetime.timedelta(minutes=a["off"]), uncps(a["name"]))
@@ -209,10 +217,47 @@ def ev_fix(eid, t, text, el=None):
     ok, v, _, _ = call(el.convert, text)
     if not ok or v is None:
         return None
+    vtext = cps(v) if isinstance(v, str) else []
     ok, t2, _, _ = call(el.unconvert, v)
     if not ok or not isinstance(t2, str):
-        return {"id": eid, "op": "fix", "ty": t, "txt": cps(text), "t2": [0], "t3": [1]}
+        return {"id": eid, "op": "fix", "ty": t, "txt": cps(text), "t2": [0], "t3": [1], "vtext": vtext}
     ok, v2, _, _ = call(el.convert, t2)
     ok2, t3, _, _ = call(el.unconvert, v2) if ok else (False, None, 0, 0)
     return {"id": eid, "op": "fix", "ty": t, "txt": cps(text), "t2": cps(t2),
-            "t3": cps(t3) if ok2 and isinstance(t3, str) else [1]}
+            "t3": cps(t3) if ok2 and isinstance(t3, str) else [1], "vtext": vtext}
+
+
+def describe(e):
+    d = {"op": e["op"], "type": e["ty"]["k"]}
+    if "txt" in e:
+        d["text"] = uncps(e["txt"])
+    if "v" in e:
+        d["value"] = {k: (uncps(v) if k in ("name", "s") and isinstance(v, list) else v) for k, v in e["v"].items()}
+        if e["v"].get("t") == "str":
+            d["value_text"] = uncps(e["v"]["s"])
+    if e.get("vtext"):
+        d["value_text"] = uncps(e["vtext"])
+    d["typarams"] = {"len": e["ty"]["len"], "scale": e["ty"]["scale"], "req": e["ty"]["req"]}
+    if "out" in e:
+        o = e["out"]
+        d["out"] = uncps(o["s"]) if o.get("t") == "text" else o
+    if "back" in e:
+        d["back"] = e["back"]
+    if e.get("exc"):
+        d["exc"] = e["exc"]
+    return d
+
+
+def judge(ctx, module, evs, what_prefix=""):
+    mism = ctx.validate_trace(module, evs)
+    byid = {e["id"]: e for e in evs}
+    for eid, clauses in mism.items():
+        e = byid[eid]
+        d = describe(e)
+        for cl in clauses:
+            case = dict(d, clause=cl.split(" ")[0], detail=cl,
+                        what="%s%s: %s" % (what_prefix, cl, d))
+            ctx.fail(case)
+    return mism
+
+
